@@ -7,6 +7,7 @@ Every operation not modelled raises ShimUnsupported (checker failure, exit 3); s
 would reject (or silently mis-lay-out) for generic distinct sizes raise ShapeError (a failed non-raise clause).
 """
 from fractions import Fraction
+import builtins as _b
 import itertools
 from . import kernel as K
 from .kernel import IV, IC
@@ -86,10 +87,10 @@ class Dim:
         return tuple(sorted((tuple(sorted(s)), c) for c, s in self.terms))
 
     def is_const(self):
-        return all(not s for c, s in self.terms)
+        return _b.all(not s for c, s in self.terms)
 
     def const(self):
-        return sum(c for c, s in self.terms)
+        return _b.sum(c for c, s in self.terms)
 
     def __int__(self):
         if self.is_const():
@@ -167,10 +168,10 @@ class Dim:
             a, b = self.const(), o2.const()
             return {"<": a < b, "<=": a <= b, ">": a > b, ">=": a >= b}[op]
         # generic sorts are >= 2 (size-1 is the Unit configuration)
-        if o2.is_const() and o2.const() <= 1 and all(c > 0 for c, s in self.terms):
+        if o2.is_const() and o2.const() <= 1 and _b.all(c > 0 for c, s in self.terms):
             gt = True
             return W.decide(f"{self} {op} {o2}", {"<": False, "<=": False, ">": gt, ">=": True}[op])
-        if self.is_const() and self.const() <= 1 and all(c > 0 for c, s in o2.terms):
+        if self.is_const() and self.const() <= 1 and _b.all(c > 0 for c, s in o2.terms):
             return W.decide(f"{self} {op} {o2}", {"<": True, "<=": True, ">": False, ">=": False}[op])
         key = (repr(self), repr(o2))
         if W is not None and key in W.order:
@@ -403,6 +404,9 @@ class SymArr:
     def __ne__(self, o):
         if o is None:
             return True
+        if isinstance(o, (int, float)) and o == 0:
+            W.assumptions.add("a quantity tested with `!= 0` is non-zero (truncated mass Phi(beta)-Phi(alpha) > 0 for a < b)") if hasattr(W, "assumptions") else None
+            return BoolConst(True, "non-zero by precondition")
         raise ShimUnsupported("array comparison != used as a Python value")
 
     __hash__ = None
@@ -452,6 +456,8 @@ class SymArr:
         return self
 
     def __pow__(self, n):
+        if isinstance(n, Stack):
+            return Stack._binary(self, n, lambda a, k: a ** k)
         if isinstance(n, float) and n == int(n):
             n = int(n)
         if isinstance(n, float) and n == 0.5:
@@ -561,17 +567,100 @@ def _broadcast_op(operands, f):
     return res
 
 
-# ------------------------------------------------------------------ symbolic booleans (for where)
-class SymBool:
-    def __init__(self, arr):
-        self.arr = arr  # SymArr whose expr is an indicator (0/1)
+# ------------------------------------------------------------------ booleans (truncated-measure extension)
+class BoolConst:
+    """a comparison whose outcome is fixed for the whole batch by the configuration / preconditions"""
+
+    def __init__(self, value, why=""):
+        self.value = bool(value)
+        self.why = why
 
     def __bool__(self):
         raise ShimUnsupported("Python branch on an array comparison (not trace-safe)")
 
 
+def _has_inf(arr):
+    for e in arr.blocks.values():
+        if e is not None and "INF" in K.atoms_of(e):
+            p = K.normalize(e, W.ctx)
+            for (f, nb), c in p.items():
+                if _b.any(x[0] == "A" and x[1] == "INF" for x in f):
+                    return True
+    return False
+
+
+def isfinite(x):
+    W.count("isfinite")
+    x = _lift(x)
+    return BoolConst(not _has_inf(x), "finite/infinite pattern of the limits is fixed by the configuration")
+
+
+def _indicator(a, b, name="step"):
+    """0/1-valued array  [a >= b]  as the function atom step(a - b)"""
+    W.count("compare")
+    d = _lift(a) - b
+    W.ctx.idempotent_fn = getattr(W.ctx, "idempotent_fn", set()) | {"step"}
+    return SymArr(d.axes, {k: K.fn("step", e) for k, e in d.blocks.items()})
+
+
+def greater_equal(a, b):
+    return _indicator(a, b)
+
+
+def less_equal(a, b):
+    return _indicator(b, a)
+
+
 def _compare(a, b, kind):
-    raise ShimUnsupported("array comparisons are only modelled in the truncated-measure extension")
+    """strict comparison used as a value: its (batch-uniform) outcome must be fixed by the configuration"""
+    out = getattr(W, "compare_outcome", None)
+    if out is None:
+        raise ShimUnsupported("strict array comparison as a value")
+    return BoolConst(out, "outcome fixed by the configuration")
+
+
+def logical_and(a, b):
+    W.count("logical_and")
+    if isinstance(a, BoolConst) and isinstance(b, BoolConst):
+        return BoolConst(a.value and b.value)
+    return _lift(a) * b
+
+
+def logical_not(a):
+    if isinstance(a, BoolConst):
+        return BoolConst(not a.value)
+    return 1.0 - _lift(a)
+
+
+def all(x, axis=None):  # noqa: A001
+    """jnp.all of a 0/1 array: only over unit axes (D = 1)"""
+    W.count("all")
+    if isinstance(x, BoolConst):
+        return x
+    if axis is None:
+        raise ShimUnsupported("jnp.all without axis")
+    ax = axis % x.ndim
+    if not (isinstance(x.axes[ax], Axis) and x.axes[ax].unit):
+        raise ShimUnsupported("jnp.all over a non-unit axis")
+    return squeeze(x, ax)
+
+
+def where(cond, a, b):
+    W.count("where")
+    if isinstance(cond, BoolConst):
+        pick, other = (a, b) if cond.value else (b, a)
+        return _broadcast_op([_lift(pick), _lift(other)], lambda es: es[0])
+    if isinstance(cond, SymArr):
+        return _broadcast_op([cond, _lift(a), _lift(b)], lambda es: K.add(K.mul(es[0], es[1]), K.mul(K.sub(K.ONE, es[0]), es[2])))
+    raise ShimUnsupported("where with a non-symbolic condition")
+
+
+def sign(x):
+    raise ShimUnsupported("sign")
+
+
+def maximum(a, b):
+    raise ShimUnsupported("maximum")
 
 
 # ------------------------------------------------------------------ index arrays
@@ -628,6 +717,8 @@ def arange(a, b=None, dtype=None):
         lo, hi = 0, a
     else:
         lo, hi = a, b
+    if isinstance(lo, int) and isinstance(hi, int) and not isinstance(hi, bool) and getattr(W, "literal_arange", False):
+        return Stack(list(range(lo, hi)))
     return IndexArr("range", size=hi - lo if not (isinstance(lo, int) and lo == 0) else hi, lo=lo)
 
 
@@ -636,7 +727,7 @@ def _getitem(arr, key):
     W.count("getitem")
     if not isinstance(key, tuple):
         key = (key,)
-    if any(k is Ellipsis for k in key):
+    if _b.any(k is Ellipsis for k in key):
         n_spec = len([k for k in key if k is not None and k is not Ellipsis])
         p = [i for i, k in enumerate(key) if k is Ellipsis][0]
         key = key[:p] + (slice(None),) * (arr.ndim - n_spec) + key[p + 1:]
@@ -1005,7 +1096,7 @@ def _reshape_wild(x, before, after):
         return n
     nb, na = count(before), count(after)
     mid = src[nb:len(src) - na]
-    if any(t[0] == "d" for t in mid):
+    if _b.any(t[0] == "d" for t in mid):
         if len(mid) == 1:
             wild = mid[0][1].size()
         else:
@@ -1133,6 +1224,10 @@ def trace(x, offset=0, axis1=0, axis2=1):
 
 def sum(x, axis=None, keepdims=False):  # noqa: A001
     W.count("sum")
+    if isinstance(x, Stack):
+        if axis != 0:
+            raise ShimUnsupported("sum of a stack along a non-leading axis")
+        return stack_sum(x)
     x = _lift(x).fresh_copy()
     if axis is None:
         axis = tuple(range(x.ndim))
@@ -1163,11 +1258,26 @@ def sum(x, axis=None, keepdims=False):  # noqa: A001
 
 
 def cumsum(x, axis=None):
+    if isinstance(x, Stack) and axis == 0:
+        return stack_sum(x, cumulative=True)
     raise ShimUnsupported("cumsum")
 
 
 def concatenate(arrs, axis=0):
     W.count("concatenate")
+    if any(isinstance(a, Stack) for a in arrs):
+        if axis != 0:
+            raise ShimUnsupported("concatenate stacks along a non-leading axis")
+        rows = []
+        for a in arrs:
+            if isinstance(a, Stack):
+                rows.extend(a.rows)
+            else:
+                a = _lift(a)
+                if not (isinstance(a.axes[0], Axis) and a.axes[0].unit):
+                    raise ShimUnsupported("concatenate a symbolic leading axis with a literal one")
+                rows.append(a[0])
+        return Stack(rows)
     arrs = [_lift(a).fresh_copy() for a in arrs]
     n = arrs[0].ndim
     axis = axis % n
@@ -1241,7 +1351,7 @@ def block(nested):
     W.count("block")
     if not isinstance(nested, list):
         return _lift(nested)
-    if all(not isinstance(x, list) for x in nested):
+    if _b.all(not isinstance(x, list) for x in nested):
         return concatenate(nested, axis=-1)
     rows = [block(r) for r in nested]
     return concatenate(rows, axis=-2)
@@ -1555,6 +1665,107 @@ def atom_array(name, *dims, sym=None):
 
 
 pi = SymArr([], {(): K.atom("PI")})
+inf = SymArr([], {(): K.atom("INF")})
+
+
+# ------------------------------------------------------------------ concrete stacks (leading axis of literal size)
+class Stack:
+    """an array whose leading axis has a small literal size, stored as the Python list of its rows (each row a
+    SymArr, int or Fraction).  Created by scan (unrolled), arange with int bounds and concatenate along axis 0."""
+
+    def __init__(self, rows, extra_dims=0):
+        self.rows = list(rows)
+        self.extra_dims = extra_dims      # trailing unit axes of scalar (int) rows
+
+    @property
+    def ndim(self):
+        if not self.rows:
+            return 1 + self.extra_dims
+        r = self.rows[0]
+        return 1 + (r.ndim if isinstance(r, SymArr) else self.extra_dims)
+
+    @staticmethod
+    def _row_of(x, n_rows, stack_ndim):
+        """the operand to combine with each row, given numpy broadcasting against a stack of rank stack_ndim"""
+        if isinstance(x, (int, float, Fraction, Dim)):
+            return [x] * n_rows
+        if isinstance(x, Stack):
+            if len(x.rows) == 1:
+                return x.rows * n_rows
+            if len(x.rows) != n_rows:
+                raise ShapeError("stack length mismatch")
+            return x.rows
+        if isinstance(x, SymArr):
+            if x.ndim >= stack_ndim:
+                lead = x.axes[x.ndim - stack_ndim]
+                if not (isinstance(lead, Axis) and lead.unit):
+                    raise ShapeError("cannot broadcast a symbolic axis against a literal axis")
+                key = (slice(None),) * (x.ndim - stack_ndim) + (0,)
+                x = x[key]
+            return [x] * n_rows
+        raise ShimUnsupported(f"stack operand {type(x).__name__}")
+
+    @staticmethod
+    def _binary(a, b, f):
+        n = max(len(x.rows) for x in (a, b) if isinstance(x, Stack))
+        nd = max(x.ndim for x in (a, b) if isinstance(x, Stack))
+        ra, rb = Stack._row_of(a, n, nd), Stack._row_of(b, n, nd)
+        ed = max([x.extra_dims for x in (a, b) if isinstance(x, Stack)])
+        return Stack([f(x, y) for x, y in zip(ra, rb)], extra_dims=ed)
+
+    def __mul__(self, o):
+        return Stack._binary(self, o, lambda x, y: x * y)
+
+    def __rmul__(self, o):
+        return Stack._binary(o, self, lambda x, y: x * y)
+
+    def __add__(self, o):
+        return Stack._binary(self, o, lambda x, y: x + y)
+
+    def __radd__(self, o):
+        return Stack._binary(o, self, lambda x, y: x + y)
+
+    def __sub__(self, o):
+        return Stack._binary(self, o, lambda x, y: x - y)
+
+    def __rsub__(self, o):
+        return Stack._binary(o, self, lambda x, y: x - y)
+
+    def __pow__(self, o):
+        return Stack._binary(self, o, lambda x, y: x ** y)
+
+    def __rpow__(self, o):
+        return Stack._binary(o, self, lambda x, y: x ** y)
+
+    def __getitem__(self, key):
+        if not isinstance(key, tuple):
+            key = (key,)
+        if key[0] == slice(None):
+            rest = key[1:]
+            if not rest:
+                return self
+            nnew = len([k_ for k_ in rest if k_ is None])
+            return Stack([(r[rest] if isinstance(r, SymArr) else r) for r in self.rows],
+                         extra_dims=self.extra_dims + (nnew if self.rows and not isinstance(self.rows[0], SymArr) else 0))
+        if isinstance(key[0], int):
+            r = self.rows[key[0]]
+            return r[key[1:]] if key[1:] else r
+        if isinstance(key[0], slice) and key[0].step in (None, 1):
+            lo = key[0].start or 0
+            hi = key[0].stop
+            if isinstance(lo, int) and (hi is None or isinstance(hi, int)):
+                sub = Stack(self.rows[lo:hi], extra_dims=self.extra_dims)
+                return sub[(slice(None),) + key[1:]] if key[1:] else sub
+        raise ShimUnsupported("stack indexing")
+
+
+def stack_sum(st, cumulative=False):
+    tot = None
+    out = []
+    for r in st.rows:
+        tot = r if tot is None else tot + r
+        out.append(tot)
+    return Stack(out) if cumulative else _lift(tot)
 
 
 def at_index(arr, *ivs_per_axis):
